@@ -213,6 +213,10 @@ func (b *Backend) GetTransactionReceipt(hash common.Hash) (*rpctypes.RPCReceipt,
 				if !isEthTx {
 					continue
 				}
+				if evmtypes.TxWasDroppedPreAnteHandleDueToBlockGasExcess(blockRes.TxsResults[txIdx]) {
+					// never reached execution, consumed no gas of the block
+					continue
+				}
 				prevReceipt, err := TxReceiptFromEvent(blockRes.TxsResults[txIdx].Events)
 				if err != nil {
 					b.logger.Debug("failed to parse receipt from events", "tx-hash", prevEthMsg.HashStr(), "error", err.Error())
